@@ -344,6 +344,25 @@ def alias_probe_ops(rng, schema, env):
     configurations: fill the list with two items, assign the live value of one item's field to the same field of the
     other item, change it in place."""
     out = []
+    # the same (hashable) tuple assigned twice to a typed list, with an in-place change in between: the second assignment
+    # gives the list of the tuple's items again, nothing remembered from the first
+    for path, nd in all_paths(schema):
+        if "[]" in path or nd["kind"] != "field" or nd["family"] != "list" or not _typed(nd) or nd["item"]["kind"] != "field":
+            continue
+        if nd["item"]["family"] in ("list", "dict", "any", "secure", "challenge", "bytes"):
+            continue
+        v = gen.one_value(rng, nd, "valid", env)
+        x = gen.one_value(rng, nd["item"], "valid", env)
+        if isinstance(v, (list, tuple)) and len(v) >= 1 and x is not None:
+            try:
+                hash(tuple(v))
+            except TypeError:
+                continue
+            if any(isinstance(i, float) and i != i for i in v):
+                continue
+            out.append([{"op": "set", "route": "attr", "path": path, "value": tuple(v)},
+                        {"op": "listop", "path": path, "name": "append", "i": 0, "n": 1, "iter": "list", "a": None, "b": None, "x": x, "xs": [x]},
+                        {"op": "set", "route": rng.choice(["attr", "item"]), "path": path, "value": tuple(v), "tuple_again": True}])
     for path, nd in all_paths(schema):
         if path.count("[]") != 1 or nd["kind"] != "field" or nd["family"] not in ("list", "dict") or not _typed(nd):
             continue
@@ -994,6 +1013,39 @@ class Driver:
         pred.unpredicted = True
         return {"kind": "inner-mutate", "path": path, "raised": exc, "label": None, "pred": pred, "before": before, "listed": False,
                 "inplace": True}
+
+    def _op_set_forward(self, op):
+        """Assign [v1, v2] to a computed field whose setter forwards v1 and v2 to two real fields of the same
+        configuration, one after the other: what was accepted before a rejection stays assigned (and user-defined)."""
+        cc, cfg = self.cc, self.cfg
+        path = op["path"]
+        nd = self.node(path)
+        if nd is None or nd.get("family") != "virtual" or not nd.get("params", {}).get("forward") or "[" in path:
+            return None
+        parent_path, key = spec.split_parent(path)
+        try:
+            parent = spec.get_path(cfg, parent_path) if parent_path else cfg
+        except Exception:
+            return None
+        k1, k2 = nd["params"]["forward"]
+        p1, p2 = [(parent_path + "." if parent_path else "") + k for k in (k1, k2)]
+        n1, n2 = self.node(p1), self.node(p2)
+        v1, v2 = op["value"]
+        ok1, norm1 = model.accepts(n1, v1, self.env)
+        ok2, norm2 = model.accepts(n2, v2, self.env)
+        if ok1 is None or ok2 is None:
+            return None
+        before = self.snapshot()
+        exc = self._run(lambda: setattr(parent, key, [spec.realize(cc, v1), spec.realize(cc, v2)]))
+        pred = Prediction(clone(before.values), dict(before.flags))
+        if ok1:
+            pset(pred.values, p1, norm1)
+            pred.flags[p1] = True
+            if ok2:
+                pset(pred.values, p2, norm2)
+                pred.flags[p2] = True
+        return {"kind": "set-forward", "path": path, "raised": exc, "label": bool(ok1 and ok2), "pred": pred, "before": before,
+                "listed": False, "node": nd, "partial": bool(ok1 and not ok2)}
 
     def _op_cmdline_ns(self, op):
         """cmdline_args_override with a hand-made Namespace: known options, options a (dynamic or fixed) section
